@@ -391,7 +391,7 @@ class AlterOracle:
         global _JOB
         items = self.pending
         self.pending = []
-        n = min(16, os.cpu_count() or 2, max(1, len(items) // 4))
+        n = min(16, os.cpu_count() or 2, max(1, len(items) // 4), int(os.environ.get("SDPVERIF_JOBS") or 64))
         if mp.current_process().daemon:
             n = 1               # already inside a worker of the fragment pool
         _JOB = (self, ex, items)
